@@ -402,3 +402,7 @@ def run(repo: Repo, rep: Report, tier: str) -> None:
     comment_language_rule(repo, rep, "C13.R7", 7 if tier == "thorough" else 5)
     name_strip_rule(repo, rep, "C13.R8")
     factory_memo_rule(repo, rep, "C13.R9")
+    from .c10 import lookup_order_rule
+
+    lookup_order_rule(repo, rep, "C13.R10")
+
